@@ -247,6 +247,33 @@ func syncEdits(fset *token.FileSet, f *ast.File, b []byte, info *types.Info, rel
 			return true
 		}
 		stack = append(stack, n)
+		// channel operations: a task about to block on a channel is a scheduling point, otherwise two
+		// callers can never both be waiting on library-internal goroutines at the same time
+		if isChanOp(n, info) {
+			var stmt ast.Stmt
+			for i := len(stack) - 1; i >= 1; i-- {
+				switch stack[i].(type) {
+				case *ast.CommClause, *ast.CaseClause:
+					continue // a clause is not a place for a statement; go up to the select/switch
+				}
+				if s, ok := stack[i].(ast.Stmt); ok && inList(s, stack[i-1]) {
+					stmt = s
+					break
+				}
+				if _, isFn := stack[i].(*ast.FuncLit); isFn {
+					break
+				}
+			}
+			pos := fset.Position(n.Pos())
+			label := fmt.Sprintf("%s:%d", relFile, pos.Line)
+			ss := syncSite{Label: label, Call: "channel operation", Kind: "chan", Mode: "skipped"}
+			if stmt != nil {
+				edits = append(edits, edit{off(stmt.Pos()), off(stmt.Pos()), "verifsim.Yield(" + fmt.Sprintf("%q", label) + "); "})
+				ss.Mode = "yield-before"
+			}
+			rep.SyncSites = append(rep.SyncSites, ss)
+			return true
+		}
 		call, ok := n.(*ast.CallExpr)
 		if !ok {
 			return true
@@ -276,6 +303,10 @@ func syncEdits(fset *token.FileSet, f *ast.File, b []byte, info *types.Info, rel
 		// the enclosing statement that sits directly in a statement list
 		var stmt ast.Stmt
 		for i := len(stack) - 2; i >= 1; i-- {
+			switch stack[i].(type) {
+			case *ast.CommClause, *ast.CaseClause:
+				continue
+			}
 			if s, ok := stack[i].(ast.Stmt); ok && inList(s, stack[i-1]) {
 				stmt = s
 				break
@@ -335,6 +366,22 @@ func syncEdits(fset *token.FileSet, f *ast.File, b []byte, info *types.Info, rel
 		return true
 	})
 	return edits
+}
+
+// isChanOp: a send, a receive, a select, or a range over a channel.
+func isChanOp(n ast.Node, info *types.Info) bool {
+	switch x := n.(type) {
+	case *ast.SendStmt, *ast.SelectStmt:
+		return true
+	case *ast.UnaryExpr:
+		return x.Op == token.ARROW
+	case *ast.RangeStmt:
+		if tv, ok := info.Types[x.X]; ok && tv.Type != nil {
+			_, isChan := tv.Type.Underlying().(*types.Chan)
+			return isChan
+		}
+	}
+	return false
 }
 
 func hasIgnoreTag(f *ast.File) bool {
